@@ -168,10 +168,14 @@ pub fn gen(o: &Opts, sink: &mut dyn FnMut(Vec<i64>, String)) {
                 k += 1; if !mine(o, k) { continue; }
                 let mut rng = Rng::new(o.seed, 8_700_000 + k);
                 let mut c = vec![0x00, 0x27];
-                letter(pre, &mut rng, &mut c); letter(cmd, &mut rng, &mut c); c.push(0);
+                letter(pre, &mut rng, &mut c);
+                let at = c.len(); letter(cmd, &mut rng, &mut c); let again = c[at..].to_vec(); c.push(0);
                 c.extend([4, 2100]);
                 if post != 0 { letter(post, &mut rng, &mut c); }
                 c.push(0); c.push(0);
+                // the SAME command once more after the expired attempt has been acted upon: it counts from its own
+                // acceptance again and means on the following cycles what it meant when accepted
+                c.extend(&again); c.push(0); c.push(0);
                 sink(c, String::new());
             }
         }
